@@ -139,6 +139,43 @@ func C14(p *core.Program, r *core.Report) {
 		})
 		r.Check(okVal, "atomic-rmw/"+fname(upd)+"/number-from-counter", "the bundle's sequence number is the counter value", p.Pos(st.Pos()), "", "stored value does not come from IdKeeper.data")
 	}
+	// the counter is kept per (source node, creation time): the key must not contain the sequence number it assigns
+	nit := p.Func(routingPkg, "", "newIdTuple")
+	okSrc, okTime := false, false
+	timeDetail := ""
+	core.EachInstr(nit, func(in ssa.Instruction) {
+		st, ok := in.(*ssa.Store)
+		if !ok {
+			return
+		}
+		owner, f, ok := core.FieldOwner(st.Addr)
+		if !ok || owner == nil || owner.Obj().Name() != "idTuple" {
+			return
+		}
+		switch f {
+		case "source":
+			okSrc = pathEndsWith(st.Val, "PrimaryBlock", "SourceNode")
+		case "time":
+			// exactly the DTN time part: CreationTimestamp.DtnTime() or element [0]
+			if c, isC := st.Val.(*ssa.Call); isC && core.NameIs(core.CalleeName(c), bp7+".CreationTimestamp.DtnTime") && pathEndsWith(core.CallRecv(c), "PrimaryBlock", "CreationTimestamp") {
+				okTime = true
+			} else if core.TypeIs(st.Val.Type(), bp7, "CreationTimestamp") {
+				timeDetail = "the key contains the whole creation timestamp, i.e. also the sequence number the bundle happens to carry: bundles submitted with different sequence numbers each start a counter of their own and are all renumbered to 0"
+			} else {
+				timeDetail = "the time component is " + valStr(st.Val)
+			}
+		}
+	})
+	r.Check(okSrc && okTime, "counter/"+fname(nit)+"/key", "the sequence counter is keyed by (source node, DTN time of the creation timestamp) — not by anything that includes the sequence number being assigned — so bundles with equal source and creation time share one counter whatever number they were submitted with", p.Pos(nit.Pos()), "", fmt.Sprintf("source from PrimaryBlock.SourceNode: %v; time from CreationTimestamp.DtnTime(): %v; %s", okSrc, okTime, timeDetail))
+	// update() uses that key for lookup and store
+	for _, mu := range updates {
+		okKey := core.DependsOn(mu.Key, func(v ssa.Value) bool {
+			c, ok := v.(*ssa.Call)
+			return ok && core.Callee(c) == nit
+		})
+		r.Check(okKey, "counter/"+fname(upd)+"/uses-key", "the counter map is indexed with newIdTuple(bundle)", p.Pos(mu.Pos()), "", "map key is not the idTuple of the bundle")
+	}
+
 	// increment by exactly one / start at zero
 	for i, mu := range updates {
 		pl, err := (&symbolizer{sym: func(v ssa.Value) (string, bool) {
